@@ -132,7 +132,25 @@ for variant in ("window", "timer") * (1 if tier == "quick" else 4):
                  what="%s on a key whose deadline second has passed while its purge timer %s: %s" % (
                      " ".join(a["argv"]) if a.get("argv") else "server", "has not fired yet" if a["variant"] == "window" else "is firing", a["detail"][:300]))
 
-cov = {"evaluations": summary["executed"] + sum(s.get("commands", 0) for s in expstats), "expiry_window_phase": expstats, "distinct_nontrivial": summary["distinct_outcome_classes"],
+# ---- lock programmes (lib/locks.py, Locks.tla; shared with C13): the lock acquisitions every multi-key command performs are
+# observed on the real code, TLC composes them under the RWMutex rules, and every composition it finds deadlocked is replayed
+# on the real code - a command that can wedge a lock stripe against a concurrent writer hangs the server for every client
+import locks
+locks.PROP = "C04"
+lcov = {}
+locks.run(v, lcov, tier, common.seed())
+# ---- mixed load on the real binary: connections of every command family on a handful of shared keys; nothing may stay
+# unanswered (a command that wedges a lock stripe only under concurrency)
+import wireconc
+mlstats = []
+for k in range(2 if tier == "quick" else 10):
+    mp, ms = wireconc.mixed_load(seed=common.seed() * 10 + k, seconds=4.0 if tier == "quick" else 8.0)
+    mlstats.append(ms)
+    for pr in mp:
+        confirmed += 1
+        v.report({"branch": "mixed-load", "kind": pr["kind"], "detail": ""}, pr, what="concurrent connections, every command family, shared keys: %s" % pr["detail"][:500])
+
+cov = {"evaluations": summary["executed"] + sum(s.get("commands", 0) for s in expstats) + sum(s.get("commands", 0) for s in mlstats), "mixed_load": mlstats, "lock_programmes": lcov.get("b3_lock_order"), "expiry_window_phase": expstats, "distinct_nontrivial": summary["distinct_outcome_classes"],
        "rule": "every registered command name (from the real CmdTable, %d names incl. select and an unknown name) x 3 letter cases (<=1 arg) x every "
                "argument vector of length 0..%d over the %d-token adversarial alphabet of spec/Robust.tla, plus every single-point mutation "
                "(truncate/delete/duplicate/swap/replace-by-token, Robust.tla Mutations) of the %d valid commands of the MC_* instances; "
